@@ -534,17 +534,19 @@ def run_hist(case):
     owned = {}          # object index of a dictionary -> (key list, list objects, deep copy of the meta entries)
 
     def dicts_intact():
+        """None, or what happened to a caller's dictionary behind the caller's back."""
         for k, (keys, lists, meta) in owned.items():
             d = objs[k]
             if list(d.keys()) != keys:
-                return False
+                return "dictionary (object %d): keys changed from %r to %r" % (k, keys, list(d.keys()))
             for key in keys:
                 if isinstance(key, int):
                     if d[key] is not lists[key]:
-                        return False
+                        return ("dictionary (object %d): the list under key %r was replaced by another object "
+                                "(was %r, is %r)" % (k, key, lists[key], d[key]))
                 elif Intern.canon(d[key]) != meta[key]:
-                    return False
-        return True
+                    return "dictionary (object %d): meta entry %r changed to %r" % (k, key, d[key])
+        return None
     try:
         with _Quiet():
             for st in case["steps"]:
@@ -574,7 +576,13 @@ def run_hist(case):
                     tgt = None
                 elif op == "cons":
                     src, cls = st["src"], st["cls"]
-                    req = [intern.code(n) for n in REQ[cls]]
+                    reqn = list(REQ[cls])
+                    if cls in ("LexStat", "Alignments") and src < len(objs):
+                        # segments may be derived from another column: one of them has to be there
+                        have = _hdr_names(objs[src])[0]
+                        alt = ["tokens", "ipa"] + (["alignment"] if cls == "Alignments" else [])
+                        reqn = [n for n in reqn if n != "tokens"] + [next((a for a in alt if a in have), "tokens")]
+                    req = [intern.code(n) for n in reqn]
                     base = "(OCons %s %s)" % (L.nat(src), L.zlist(req))
                     tgt = None
                     new = None
@@ -689,10 +697,13 @@ def run_hist(case):
                     raise AssertionError(op)
                 snap = observe(objs, intern)
                 info["raised"] += raised
-                same = dicts_intact() and all(Intern.canon(a) == c for a, c in args)
+                why = dicts_intact()
+                if why is None and not all(Intern.canon(a) == c for a, c in args):
+                    why = "an argument object handed to the call was modified: now %r" % ([a for a, _ in args],)
+                same = why is None
                 info["args_changed"] = info.get("args_changed", 0) + (not same)
                 out_steps.append({"mops": mops, "tgt": tgt, "raised": raised, "err": err[:200], "snap": snap,
-                                  "args_same": same})
+                                  "args_same": same, "args_note": why or ""})
                 prev = snap
             info["nested_shared"] = nested_sharing(objs)
             info["meta_shared"] = meta_sharing(objs)
@@ -764,7 +775,7 @@ def hist_jsonable(case, res=None):
     c = {"family": "hist", "steps": case["steps"]}
     if res is not None:
         c["impl"] = {"info": res["info"],
-                     "steps": [{"raised": s["raised"], "err": s["err"], "tgt": s["tgt"], "args_same": s["args_same"], "model_ops": s["mops"],
+                     "steps": [{"raised": s["raised"], "err": s["err"], "tgt": s["tgt"], "args_same": s["args_same"], "args_note": s["args_note"][:400], "model_ops": s["mops"],
                                 "snapshot": s["snap"]} for s in res["steps"]]}
     return c
 
@@ -796,7 +807,7 @@ def hist_shrink(case):
     for n in range(1, len(steps)):
         yield {"steps": steps[:n]}
     nobj = sum(st["op"] in ("cons", "newdict") for st in steps)
-    for k in range(nobj - 1, 0, -1):
+    for k in range(nobj - 1, -1, -1):
         s2 = _drop_object(steps, k)
         if s2 and s2[0]["op"] == "newdict":
             yield {"steps": s2}
